@@ -422,6 +422,20 @@ func c20Names(variant string, n int) string {
 		return fill(n)
 	case "near":
 		return strings.Replace(fill(n, 0), "varlink", "Varlink", 1)
+	case "gap-right-arity": // an empty entry among exactly n entries, varlink last (for n = 2: ":varlink")
+		p := strings.Split(fill(n, n-1), ":")
+		p[0] = ""
+		return strings.Join(p, ":")
+	case "gap-extra": // n+1 entries of which one is empty: the arity is wrong, whatever the empty one is taken for
+		p := strings.Split(fill(n+1, n), ":")
+		p[(n+1)/2-0] = p[(n+1)/2-0]
+		p[1] = ""
+		if n == 2 {
+			return "n0::varlink"
+		}
+		return strings.Join(p, ":")
+	case "gap-trailing": // n entries followed by a trailing colon (= n+1 entries, the last one empty)
+		return fill(n, 0) + ":"
 	default:
 		return ""
 	}
@@ -479,7 +493,7 @@ func TestC20Product(t *testing.T) {
 	for _, pid := range []string{"own", "other", "unset", "garbage"} {
 		for _, fds := range []string{envUnset, "", "foo", "-1", "0", "1", "2", "3"} {
 			n, _ := strconv.Atoi(fds)
-			for _, nv := range []string{"unset", "fewer", "more", "more-late", "first", "middle", "last", "twice", "absent", "near", "empty"} {
+			for _, nv := range []string{"unset", "fewer", "more", "more-late", "first", "middle", "last", "twice", "absent", "near", "empty", "gap-right-arity", "gap-extra", "gap-trailing"} {
 				for _, kind := range []string{"unix", "tcp", "file", "pipe"} {
 					cases = append(cases, C20Case{PID: pid, FDS: fds, Names: c20Names(nv, n), Kind: kind, Origin: "product"})
 				}
